@@ -158,7 +158,7 @@ def holds_on_instance(g, env):
     return None
 
 
-def prove_i(ctx, ident, hyps, goal, env, facts, algebra=False, budget_s=12.0, **kw):
+def prove_i(ctx, ident, hyps, goal, env, facts, algebra=False, budget_s=12.0, max_refuted=2, **kw):
     """hyps |- goal, conjunct by conjunct.  A conjunct that evaluates to FALSE at the exact rational instance `env` is registered with the instance's defining `facts` as
     extra hypotheses: a counter-model of the instance is a counter-model of the obligation, and the solver finds it at once (the general query would often end `unknown`).
     A conjunct that holds at the instance is registered in full generality (certificate search under a wall-clock budget when algebra=True)."""
@@ -166,11 +166,15 @@ def prove_i(ctx, ident, hyps, goal, env, facts, algebra=False, budget_s=12.0, **
     parts = list(goal.children()) if z3.is_and(goal) and goal.num_args() > 1 else [goal]
     t_end = time.time() + budget_s
     out = []
+    n_false = 0
     for k, g in enumerate(parts):
         name = f"{ident}/c{k}" if len(parts) > 1 else ident
         kw2 = dict(SMT)
         kw2.update(kw)
         if holds_on_instance(g, env) is False:
+            n_false += 1
+            if n_false > max_refuted:
+                continue            # further conjuncts of the same clause that fail at the same instance add nothing to the report
             cl = kw2.pop("clause", "")
             out.append(ctx.prove(name, list(hyps) + list(facts), g, split=False, clause=cl + "  [false at the exact rational instance; its defining facts added as hypotheses for the counter-model]", **kw2))
         elif algebra:
